@@ -375,7 +375,7 @@ func alphabet(p *pool, withMaps bool) []Op {
 		}
 	}
 	if withMaps {
-		ops = append(ops, Op{K: "newmap"})           // nil
+		ops = append(ops, Op{K: "newmap"})             // nil
 		ops = append(ops, Op{K: "newmap", V: []int{}}) // empty literal
 		for _, a := range vals {
 			ops = append(ops, Op{K: "newmap", V: []int{a, 1}})
